@@ -110,7 +110,7 @@ struct Runner<T, RDims<E...>, Maker, D...> {
             for (size_t wi = 0; wi < wsp.size() && ok && marg; ++wi) {
                 const WSpec& w = wsp[wi];
                 T c = (T)w.c;
-                RefSel sel(w.dst, dims), s1(w.src, dims), s2(w.src2, dims);
+                RefSel sel = Maker::is_diag() ? RefSel::diagonal(dims[0]) : RefSel(w.dst, dims); RefSel s1(w.src, dims), s2(w.src2, dims);
                 // reference first (snapshot semantics); integer divisions that would trap are skipped
                 std::vector<T> old = ref; bool trap = false;
                 for (long jf = 0; jf < sel.total; ++jf) {
@@ -141,11 +141,11 @@ struct Runner<T, RDims<E...>, Maker, D...> {
                     }
                 // an unguarded hazardous integer division could trap on a value the reference never sees
                 if (w.op == 4 && !std::is_floating_point<T>::value && !grd && !coincide) trap = true;
-                if (trap) { ref = old; ++skipped; if (w.na) held->noalias(); continue; }
+                if (trap) { ref = old; ++skipped; if (w.na) Maker::noalias(*held); continue; }
                 if (grd) flag = false;
                 {
                     VT& v = *held;
-                    if (w.na) v.noalias();
+                    if (w.na) Maker::noalias(v);
                     switch (w.rk) {
                     case 's': apply_op5(w.op, v, c); break;
                     case 'v': apply_op5(w.op, v, mkview(B, w.src, rk)); break;
@@ -172,4 +172,5 @@ struct Runner<T, RDims<E...>, Maker, D...> {
 } // namespace vwr
 
 #define VWR(T, RD, DD, SEED, SCRIPT) vwr::Runner<T, vw::RDims<VW_UNPACK RD>, vw::DynMaker, VW_UNPACK DD>::go(SCRIPT, SEED)
+#define VWRD(T, RD, DD, SEED, SCRIPT) vwr::Runner<T, vw::RDims<VW_UNPACK RD>, vw::DiagMaker, VW_UNPACK DD>::go(SCRIPT, SEED)
 #define VWRF(T, RD, DD, FS, SEED, SCRIPT) vwr::Runner<T, vw::RDims<VW_UNPACK RD>, vw::FixMaker<VW_UNPACK FS>, VW_UNPACK DD>::go(SCRIPT, SEED)
